@@ -77,6 +77,8 @@ type Frame struct {
 	sendOrd     map[ssa.Instruction]int
 	recvOrd     map[ssa.Instruction]int
 	mupOrd      map[ssa.Instruction]int
+	selOrd      map[ssa.Instruction]int
+	selWaits    []T // receive channels of the select being anchored (for waitsOn)
 	retOrd      map[ssa.Instruction]int
 	curBlock    *ssa.BasicBlock
 	curInstr    ssa.Instruction
@@ -160,7 +162,7 @@ func (fr *Frame) computeOrder() {
 		in   ssa.Instruction
 		name string
 	}
-	var calls, sends, rets, recvs, mups []site
+	var calls, sends, rets, recvs, mups, sels []site
 	for _, b := range fr.order {
 		for _, in := range b.Instrs {
 			switch x := in.(type) {
@@ -180,6 +182,8 @@ func (fr *Frame) computeOrder() {
 				rets = append(rets, site{in, "return"})
 			case *ssa.MapUpdate:
 				mups = append(mups, site{in, "mapupdate"})
+			case *ssa.Select:
+				sels = append(sels, site{in, "select"})
 			}
 		}
 	}
@@ -191,6 +195,11 @@ func (fr *Frame) computeOrder() {
 	byPos(rets)
 	byPos(recvs)
 	byPos(mups)
+	byPos(sels)
+	fr.selOrd = map[ssa.Instruction]int{}
+	for i, r := range sels {
+		fr.selOrd[r.in] = i
+	}
 	fr.mupOrd = map[ssa.Instruction]int{}
 	for i, r := range mups {
 		fr.mupOrd[r.in] = i
